@@ -263,10 +263,26 @@ def payload_edits(ms, loc, g, out):
             m.mappings.values[i] = m.Mapping(v)
             m.update_user_defined_controllers()
         out.append(Edit(f"{base}/payload/mappings[{i}]", ap, v, coupled=True, cls="payload"))
+        for j in (95, rng.randrange(96)):
+            v2 = differ(g, pl["mappings"][j], lambda: (rng.randrange(max(1, emb_n + 1)), rng.randrange(12)))
+            def ap_inplace(root, j=j, v2=v2):
+                m = nav(root, loc)
+                m.mappings.values[j].module, m.mappings.values[j].controller = v2
+                m.update_user_defined_controllers()
+            out.append(Edit(f"{base}/payload/mappings[{j}]", ap_inplace, v2, coupled=True, cls="payload-inplace"))
         if n:
             i = rng.randrange(n)
             v = differ(g, pl["labels"].get(i), lambda: g.text(8, allow_empty=False))
             out.append(Edit(f"{base}/payload/labels/{i}", (lambda root, i=i, v=v: setattr(nav(root, loc).user_defined[i], "label", v)), v, cls="payload"))
+        if n < 96:
+            n2 = rng.choice([n + 1, min(96, n + 3), 96])
+            txt = g.text(6, allow_empty=False)
+            def grow(root, n2=n2, txt=txt):
+                m = nav(root, loc)
+                m.user_defined_controllers = n2
+                m.user_defined[n2 - 1].label = txt
+                m.update_user_defined_controllers()
+            out.append(Edit(f"{base}/payload/labels/{n2 - 1}", grow, txt, coupled=True, cls="metamodule-grow"))
         project_edits(pl["project"], loc + (("project",),), g, out, limit=25)
     elif t == "Sampler":
         sampler_edits(ms, loc, g, out)
@@ -324,6 +340,35 @@ def sampler_edits(ms, loc, g, out):
                 setattr(s, f, sd[f])
             m.samples[i] = s
         out.append(Edit(f"{base}/payload/samples/{i}", add, sd, cls="sampler-sample"))
+    # an envelope replaced by a NEW object (rebinding, not an in-place edit)
+    for attr, cls_name, lo in (("volume_envelope", "VolumeEnvelope", 0), ("panning_envelope", "PanningEnvelope", -0x4000), ("pitch_envelope", "PitchEnvelope", -0x4000)):
+        ed = g.envelope(lo, [])
+        if ed != pl[attr]:
+            def rebind(root, attr=attr, cls_name=cls_name, ed=ed):
+                m = nav(root, loc)
+                e_ = getattr(m, cls_name)()
+                build.apply_envelope(e_, ed)
+                setattr(m, attr, e_)
+            out.append(Edit(f"{base}/payload/{attr}", rebind, ed, cls="sampler-envelope-rebound"))
+    k2 = rng.randrange(4)
+    ed = g.envelope(0, [])
+    def rebind_ec(root, k2=k2, ed=ed):
+        m = nav(root, loc)
+        e_ = m.EffectControlEnvelope(0x105 + k2)
+        build.apply_envelope(e_, ed)
+        m.effect_control_envelopes[k2] = e_
+    out.append(Edit(f"{base}/payload/effect_control_envelopes[{k2}]", rebind_ec, ed, cls="sampler-envelope-rebound"))
+    # a used slot emptied (not necessarily the last one); an existing Sample object also put into a second slot
+    used = sorted(pl["samples"])
+    if used:
+        victim = rng.choice(used)
+        out.append(Edit(f"{base}/payload/samples", (lambda root, victim=victim: nav(root, loc).samples.__setitem__(victim, None)),
+                        {i: s for i, s in pl["samples"].items() if i != victim}, cls="sampler-slot-emptied"))
+        free2 = [i for i in range(128) if i not in pl["samples"]]
+        if free2:
+            src, dst = rng.choice(used), rng.choice(free2)
+            out.append(Edit(f"{base}/payload/samples/{dst}", (lambda root, src=src, dst=dst: nav(root, loc).samples.__setitem__(dst, nav(root, loc).samples[src])),
+                            pl["samples"][src], cls="sampler-sample-shared"))
     env_edits(pl["volume_envelope"], base, loc, lambda m: m.volume_envelope, "volume_envelope", g, out, 0)
     env_edits(pl["panning_envelope"], base, loc, lambda m: m.panning_envelope, "panning_envelope", g, out, -0x4000)
     env_edits(pl["pitch_envelope"], base, loc, lambda m: m.pitch_envelope, "pitch_envelope", g, out, -0x4000)
@@ -428,6 +473,20 @@ def project_edits(ps, loc, g, out, limit=None):
     for i, ms in enumerate(ps["modules"]):
         if ms is not None:
             module_edits(ms, loc + (("modules", i),), g, "project", mine)
+    # link edits between existing modules (connect a new pair, unplug an existing one)
+    live = [i for i, ms in enumerate(ps["modules"]) if ms is not None]
+    edges = [(f, i) for i in live for f in ps["modules"][i]["links"]["in"] if f != -1]
+    if len(live) >= 2:
+        for _ in range(2):
+            f, t = rng.choice(live), rng.choice(live)
+            if (f, t) not in edges and f != t:
+                mine.append(Edit(f"{base}/modules[{t}]/links", (lambda root, f=f, t=t: nav(root, loc).connect(nav(root, loc).modules[f], nav(root, loc).modules[t])),
+                                 ("connect", f, t), coupled=True, cls="link-connect"))
+                break
+    if edges:
+        f, t = rng.choice(edges)
+        mine.append(Edit(f"{base}/modules[{t}]/links", (lambda root, f=f, t=t: nav(root, loc).connect(nav(root, loc).modules[f], ~nav(root, loc).modules[t])),
+                         ("disconnect", f, t), coupled=True, cls="link-disconnect"))
     for i, qs in enumerate(ps["patterns"]):
         if qs is not None:
             pattern_edits(qs, loc + (("patterns", i),), g, mine,
@@ -451,17 +510,17 @@ def _snap(obj):
     return snapshot.snap_project(obj) if isinstance(obj, Project) else snapshot.snap_synth(obj)
 
 
-def mutate_live(root, rng, n, prefer=(), exclude=None):
+def mutate_live(root, rng, n, prefer=(), exclude=None, first_classes=()):
     """Apply up to n catalogue edits in place to a live Project/Synth (used by C02/C16 for 'save, edit, save again')."""
     S = _snap(root)
     edits = catalogue(S, gen.Gen(rng))
     rng.shuffle(edits)
-    edits.sort(key=lambda e: 0 if any(p in e.path for p in prefer) else 1)
+    edits.sort(key=lambda e: 0 if (e.cls == "metamodule-grow" or e.cls in first_classes) else (1 if any(p in e.path for p in prefer) else 2))
     applied = []
     for e in edits:
         if len(applied) >= n:
             break
-        if e.coupled or (exclude is not None and exclude(e.path)):
+        if (e.coupled and e.cls != "metamodule-grow") or (exclude is not None and exclude(e.path)):
             continue
         try:
             e.apply(root)
@@ -499,6 +558,9 @@ def run_file(res, origin, raw, desc, rng, per_file):
         case = dict(desc, origin=origin, path=e.path, new_value=repr(e.value)[:200])
         res.case((origin, e.path, repr(e.value)))
         o = workload.load(raw)
+        if rng.random() < 0.3:
+            o.read()  # the object has already been saved once since it was loaded
+            res.count("saved_once_before_edit")
         try:
             e.apply(o)
         except Exception as ex:
@@ -524,6 +586,13 @@ def run_file(res, origin, raw, desc, rng, per_file):
         except (KeyError, IndexError, TypeError):
             got = "<missing>"
         want = e.value
+        if e.cls in ("link-connect", "link-disconnect"):
+            present = want[1] in got["in"]
+            ok_link = present if e.cls == "link-connect" else not present
+            if not ok_link:
+                res.violation(f"C06:edit-not-visible:{e.cls}", f"{origin}: after {want} the in-table of {e.path} is {got['in']}", case)
+                continue
+            got = want
         if isinstance(want, dict) and isinstance(got, dict):
             ok = not snapshot.diff(want, got)
         else:
@@ -531,6 +600,17 @@ def run_file(res, origin, raw, desc, rng, per_file):
         if not ok:
             res.violation(f"C06:edit-not-visible:{snapshot.field_key(e.path)}", f"{origin}: after setting {e.path} = {want!r} the object shows {got!r}", case)
             continue
+        if e.cls == "payload-inplace":
+            try:
+                m0, m1 = sget(S0, e.path.rsplit("[", 1)[0]), sget(S1, e.path.rsplit("[", 1)[0])
+                idx = int(e.path.rsplit("[", 1)[1][:-1])
+                moved = [k for k in range(len(m0)) if k != idx and tuple(m0[k]) != tuple(m1[k])]
+                if moved:
+                    res.violation(f"C06:edit-changed-other:{snapshot.field_key(e.path)}->sibling-entries",
+                                  f"{origin}: editing entry {idx} of {e.path.rsplit('[', 1)[0]} in place also changed entries {moved[:5]}", case)
+                    continue
+            except (KeyError, IndexError, TypeError, ValueError):
+                pass
         if not e.coupled:
             others = [d for d in snapshot.diff(S0, S1, limit=6) if not (d[0].startswith(e.path) or e.path.startswith(d[0]))]
             if others:
